@@ -21,7 +21,7 @@ MARK = re.compile(r"m(\d+)\.")
 # shapes of the text a writing call is given: built around the marker m<t>. ... or without any marker
 MARK_SHAPES = {"plain": "m%d.", "nl": "m%d.\n", "mid": "a\nm%d.", "pad": " m%d. ", "uni": "\u00e9m%d.\u00fc\u0416"}
 NOMARK_SHAPES = {"empty": "", "blank": "  ", "onlynl": "\n"}
-SHAPE_SETS = [["plain", "nl", "empty", "pad"], ["nl", "mid", "blank", "onlynl", "uni"]]
+SHAPE_SETS = [["plain", "nl", "empty"], ["nl", "pad", "onlynl"], ["mid", "blank", "uni"]]
 ALL_SHAPES = ["plain", "nl", "mid", "pad", "uni", "empty", "blank", "onlynl"]
 
 
@@ -103,7 +103,16 @@ def _entries(cls):
             continue
         required = [p.name for p in params
                     if p.default is inspect.Parameter.empty and p.kind in (p.POSITIONAL_ONLY, p.POSITIONAL_OR_KEYWORD)]
-        out.append({"name": name, "hasFlags": has_flags, "ntext": len(required)})
+        # every other parameter with a default: its legal values besides the default (the gate must not depend on them)
+        opts = []
+        for q in params:
+            if q.name == "flags" or q.default is inspect.Parameter.empty:
+                continue
+            if isinstance(q.default, bool):
+                opts.append((q.name, not q.default))
+            elif q.default is None and q.name == "lines":
+                opts.append((q.name, 1))
+        out.append({"name": name, "hasFlags": has_flags, "ntext": len(required), "opts": opts})
     return out
 
 
@@ -194,7 +203,11 @@ class Subject(object):
                 f = _fmt(real["fmt"] if real["fmt"] != "keep" else "plain")
                 io = cls(Input(StringInputStream("")), Output(Rec(_inner(real["inner"]), ansi), f),
                          Output(Rec(_inner(real["inner"]), ansi), f))
+            self.parents = []
             if kind == "iosec":
+                self.parents = [io]  # the I/O whose outputs the sections were opened from
+                if real.get("pq"):
+                    io.set_quiet(True)  # silenced before the sections exist
                 io = io.section()
             self.io = io
             self.outs = [io.output, io.error_output]
@@ -202,16 +215,24 @@ class Subject(object):
             self.sts = [1, 2]
         else:
             rec = Rec(_inner(real["inner"]), ansi)
+            self.parents = []
             if kind == "output":
                 self.outs = [Output(rec, _fmt(real["fmt"]))]
             elif kind == "section" and real.get("via") == "direct":
                 self.outs = [SectionOutput(rec, [], _fmt(real["fmt"]))]
             elif kind == "section" and real.get("via") == "nested":  # a section of a section
                 self.parent = Output(rec, _fmt(real["fmt"]))
-                self.outs = [self.parent.section().section()]
+                if real.get("pq"):
+                    self.parent.set_quiet(True)
+                mid = self.parent.section()
+                self.parents = [self.parent, mid]
+                self.outs = [mid.section()]
             else:
                 parent = Output(rec, _fmt(real["fmt"]))
                 self.parent = parent
+                self.parents = [parent]
+                if real.get("pq"):
+                    parent.set_quiet(True)
                 self.outs = [parent.section() for _ in range(real.get("nsecs", 1))]
             self.recs = [rec]
             self.sts = [1] * len(self.outs)
@@ -252,7 +273,13 @@ class Subject(object):
         Rec = _rec_class()
         ansi = True if self.real.get("ansi") else None
         try:
-            if what == "set_stream":
+            if what.startswith("parent."):
+                # the output / I/O a section was opened from is configured: the section has its own configuration
+                meth, val = {"parent.quiet": ("set_quiet", True), "parent.loud": ("set_quiet", False),
+                             "parent.v0": ("set_verbosity", 0), "parent.v4": ("set_verbosity", 4)}[what]
+                for p in self.parents:
+                    getattr(p, meth)(val)
+            elif what == "set_stream":
                 for x in g:
                     rec = Rec(_inner(self.real.get("inner", "buffered")), ansi)
                     self.outs[x - 1].set_stream(rec)
@@ -280,7 +307,7 @@ class Subject(object):
             return [1]
         return list(range(1, len(self.outs) + 1))
 
-    def write(self, name, o, f, explicit_none=False, sh="plain", positional=False):
+    def write(self, name, o, f, explicit_none=False, sh="plain", positional=False, extra=None):
         self.t += 1
         t = self.t
         recv = self.receiver(o)
@@ -300,6 +327,7 @@ class Subject(object):
                 args.append(None if f == NOFLAGS else f)
             else:
                 kw["flags"] = None if f == NOFLAGS else f
+        kw.update(extra or {})
         marks = [len(r.data) for r in self.recs]
         try:
             getattr(recv, name)(*args, **kw)
@@ -358,11 +386,11 @@ def run_case(case):
             elif k == "verbosity":
                 evs.append(dict(base_event("verbosity"), g=list(op["g"]), v=op["v"], res=s.set("verbosity", op["g"], op["v"])))
             elif k == "rewire":
-                if s.can_rewire():
+                if op["what"].startswith("parent.") or s.can_rewire():
                     evs.append(dict(base_event("rewire"), g=list(op["g"]), name=op["what"], res=s.rewire(op["g"], op["what"])))
             elif k == "write":
                 evs.append(s.write(op["name"], op["o"], op["f"], op.get("explicit_none", False), op.get("sh", "plain"),
-                                   op.get("positional", False)))
+                                   op.get("positional", False), op.get("extra")))
         return evs
     finally:
         if env_cols is None:
@@ -386,6 +414,7 @@ def realizations(kind, full):
                         out.append(dict(base, via="parent"))
                         if fmt in ("plain", "forced") and not ansi:
                             out.append(dict(base, via="nested"))
+                            out.append(dict(base, via="parent", pq=True))  # the parent was silenced before section()
                         if full or fmt in ("plain", "forced"):
                             out.append(dict(base, via="direct"))
                     elif kind == "sections":
@@ -398,6 +427,8 @@ def realizations(kind, full):
                 for inner in (inners if fmt != "keep" else ["buffered"]):
                     for ansi in (False, True):
                         out.append({"kind": kind, "cls": cls.__name__, "fmt": fmt, "inner": inner, "ansi": ansi})
+                        if kind == "iosec" and fmt in ("plain", "forced") and not ansi and inner == "buffered":
+                            out.append({"kind": kind, "cls": cls.__name__, "fmt": fmt, "inner": inner, "ansi": ansi, "pq": True})
     return out
 
 
@@ -448,7 +479,8 @@ def ops_of(beh):
         elif k == "verbosity":
             ops.append({"op": "verbosity", "g": sorted(h["g"]), "v": h["v"]})
         elif k == "rewire":
-            ops.append({"op": "rewire", "g": sorted(h["g"]), "what": "set_stream" if len(ops) % 2 else "set_formatter"})
+            ops.append({"op": "rewire", "g": sorted(h["g"]),
+                        "what": ("set_formatter", "set_stream", "parent.quiet", "parent.v0")[(len(ops) + len(beh["ops"])) % 4]})
         elif k == "write":
             ops.append({"op": "write", "name": h["name"], "o": h["o"], "f": h["f"], "sh": h["sh"],
                         "positional": (h["t"] + max(h["f"], 0)) % 2 == 0, "explicit_none": h["t"] % 2 == 0})
@@ -587,9 +619,9 @@ def run(ctx):
             s = Subject(r)
             ents = entries(s.cls)
             found.setdefault(s.cls.__name__, sorted(e["name"] for e in ents))
-            # the gate must not depend on the text: every configuration meets several text shapes (quick: one of two
-            # shape sets per realization, alternating; thorough: all of them)
-            shapes = SHAPE_SETS[nr % 2] if quick else ALL_SHAPES
+            # the gate must not depend on the text: every configuration meets several text shapes (quick: one of three
+            # shape sets per realization, in turn; thorough: all of them)
+            shapes = SHAPE_SETS[nr % 3] if quick else ALL_SHAPES
             for ent in ents:
                 ops = []
                 for q in (False, True):
@@ -600,6 +632,24 @@ def run(ctx):
                                 ops.append({"op": "write", "name": ent["name"], "o": 1, "f": f, "sh": sh,
                                             "explicit_none": (q + v) % 2 == 1, "positional": (q + v + len(ops)) % 2 == 0})
                                 ctx.count()
+                # every other parameter of the entry point at its other legal value (with_indent, new_line, lines)
+                for pname, pval in ent.get("opts", ()):
+                    for q in (False, True):
+                        for v in LEVELS:
+                            for f in (FLAGWORDS if ent["hasFlags"] else [NOFLAGS]):
+                                ops += [{"op": "new"}, {"op": "config", "q": q, "v": v},
+                                        {"op": "write", "name": ent["name"], "o": 1, "f": f, "sh": shapes[(q + v + len(ops)) % 2],
+                                         "extra": {pname: pval}}]
+                                ctx.count()
+                                ctx.nontriv(("opt", kind, dec, ent["name"], pname, q, v, f))
+                # a section opened from an output / I/O: the parent's quiet and verbosity must not matter
+                if s.parents:
+                    for pw, (q, v) in (("parent.quiet", (False, 4)), ("parent.v0", (False, 4)), ("parent.v4", (True, 0)), ("parent.v4", (False, 0))):
+                        for f in (FLAGWORDS if ent["hasFlags"] else [NOFLAGS]):
+                            ops += [{"op": "new"}, {"op": "config", "q": q, "v": v}, {"op": "rewire", "g": [1], "what": pw},
+                                    {"op": "write", "name": ent["name"], "o": 1, "f": f, "sh": shapes[len(ops) % 2]}]
+                            ctx.count()
+                            ctx.nontriv(("parent", kind, dec, ent["name"], pw, q, v, f))
                 # the two outputs of an I/O configured independently (quiet / verbosity on one of them only, both directions)
                 if s.io is not None:
                     for one, other in (([1], [2]), ([2], [1])):
@@ -669,7 +719,7 @@ def validate_all(ctx, traces, cases, name):
         bt.append(t)
         bc.append(c)
         n += len(t)
-        if n > 40000:
+        if n > 45000:
             ctx.validate(SPEC, "OutputGateTrace", "OutputGateTrace.cfg", bt, cases=bc, name=name)
             bt, bc, n = [], [], 0
     if bt:
@@ -689,7 +739,8 @@ def random_ops(rng, real, n):
         elif x < 0.45:
             ops.append({"op": "verbosity", "g": rng.choice(groups), "v": rng.choice(LEVELS)})
         elif x < 0.53:
-            ops.append({"op": "rewire", "g": rng.choice(groups), "what": rng.choice(["set_stream", "set_formatter"])})
+            ops.append({"op": "rewire", "g": rng.choice(groups),
+                        "what": rng.choice(["set_stream", "set_formatter", "parent.quiet", "parent.loud", "parent.v0", "parent.v4"])})
         else:
             e = rng.choice(ents)
             f = rng.choice(FLAGWORDS) if e["hasFlags"] else NOFLAGS
